@@ -38,7 +38,7 @@ def run_one(pid, m, args, seed):
         apply(repo, m)
         suite = None
         if args.suite:
-            r = subprocess.run('cmake -G Ninja -S %s -B %s/_build -DCMAKE_BUILD_TYPE=RelWithDebInfo -DLIBA_TESTS=1 >/dev/null 2>&1; cmake --build %s/_build >/dev/null 2>&1 && ctest --test-dir %s/_build -j8 --timeout 900 2>&1 | tail -3' % (repo, repo, repo, repo),
+            r = subprocess.run('cmake -G Ninja -S %s -B %s/_build -DCMAKE_BUILD_TYPE=RelWithDebInfo -DBUILD_TESTING=ON -DCMAKE_C_FLAGS=-Wno-error >/dev/null 2>&1; cmake --build %s/_build >/dev/null 2>&1 && ctest --test-dir %s/_build -j8 --timeout 900 2>&1 | tail -3' % (repo, repo, repo, repo),
                                shell=True, stdout=subprocess.PIPE, stderr=subprocess.STDOUT, text=True)
             suite = '100% tests passed' in r.stdout
         env = dict(os.environ, VERIF_REPO=repo, VERIF_SCRATCH=os.path.join(d, 'out'), VERIF_SEED=str(seed), VERIF_JOBS=str(args.jobs))
